@@ -145,5 +145,309 @@ theorem content_eq_isort_of_perm {dflt : ν} {d : Nat} {t : Tree κ ν d} (h : W
 
 end content
 
+/-! ### swizzle: extraction and rebuilding -/
+
+section swz
+variable {κ : Type} [LT κ] [DecidableRel (α := κ) (· < ·)] [DecidableEq κ] [StrictTotal κ]
+variable {ν : Type} [DecidableEq ν]
+
+theorem content_point_length (dflt : ν) : ∀ (d : Nat) (t : Tree κ ν d) (pv : List κ × ν),
+    pv ∈ content dflt d t → pv.1.length = d
+  | 0, v, pv, h => by
+    have h' : pv ∈ (if (show ν from v) = dflt then [] else [([], (show ν from v))]) := h
+    split at h'
+    · cases h'
+    · rw [List.mem_singleton.1 h']; rfl
+  | d + 1, f, pv, h => by
+    rw [content_succ] at h
+    obtain ⟨e, _, he⟩ := List.mem_flatMap.1 h
+    obtain ⟨y, hy, rfl⟩ := mem_pre he
+    simp [content_point_length dflt d e.2 y hy]
+
+/-- the content below a list of (coordinates, sub-tree) entries -/
+def below (dflt : ν) (r : Nat) (l : List (List κ × Tree κ ν r)) : List (List κ × ν) :=
+  l.flatMap (fun q => (content dflt r q.2).map (fun pv => (q.1 ++ pv.1, pv.2)))
+
+theorem below_cons (dflt : ν) (r : Nat) (q : List κ × Tree κ ν r) (l) :
+    below dflt r (q :: l) = (content dflt r q.2).map (fun pv => (q.1 ++ pv.1, pv.2)) ++ below dflt r l := by
+  unfold below; rw [List.flatMap_cons]
+
+theorem below_append (dflt : ν) (r : Nat) (l₁ l₂ : List (List κ × Tree κ ν r)) :
+    below dflt r (l₁ ++ l₂) = below dflt r l₁ ++ below dflt r l₂ := by
+  unfold below; rw [List.flatMap_append]
+
+theorem below_map_cons (dflt : ν) (r : Nat) (c : κ) (l : List (List κ × Tree κ ν r)) :
+    below dflt r (l.map (fun q => (c :: q.1, q.2))) = pre c (below dflt r l) := by
+  induction l with
+  | nil => rfl
+  | cons q l ih =>
+    rw [List.map_cons, below_cons, below_cons, ih]
+    unfold pre
+    rw [List.map_append, List.map_map]
+    rfl
+
+theorem content_extract (dflt : ν) (r : Nat) : ∀ (k : Nat) (t : Tree κ ν (r + k)),
+    content dflt (r + k) t = below dflt r (extract r k t)
+  | 0, t => by
+    show content dflt r t = below dflt r [([], t)]
+    rw [below_cons]
+    simp [below]
+  | k + 1, f => by
+    show content dflt (r + k + 1) f = below dflt r (extract r (k + 1) f)
+    rw [content_succ]
+    unfold extract
+    generalize (show List (κ × Tree κ ν (r + k)) from f) = l
+    induction l with
+    | nil => rfl
+    | cons e l ih =>
+      rw [List.flatMap_cons, List.flatMap_cons, below_append, below_map_cons, ih,
+        content_extract dflt r k e.2]
+
+theorem extract_length (r : Nat) : ∀ (k : Nat) (t : Tree κ ν (r + k)) (q : List κ × Tree κ ν r),
+    q ∈ extract r k t → q.1.length = k
+  | 0, t, q, h => by
+    have : q = ([], t) := List.mem_singleton.1 h
+    rw [this]; rfl
+  | k + 1, f, q, h => by
+    unfold extract at h
+    obtain ⟨e, _, he⟩ := List.mem_flatMap.1 h
+    obtain ⟨q', hq', rfl⟩ := List.mem_map.1 he
+    simp [extract_length r k e.2 q' hq']
+
+theorem extract_wf (r : Nat) : ∀ (k : Nat) (t : Tree κ ν (r + k)), WF (r + k) t →
+    ∀ q ∈ extract r k t, WF r q.2
+  | 0, t, hw, q, h => by
+    have : q = ([], t) := List.mem_singleton.1 h
+    rw [this]; exact hw
+  | k + 1, f, hw, q, h => by
+    unfold extract at h
+    obtain ⟨e, he', he⟩ := List.mem_flatMap.1 h
+    obtain ⟨q', hq', rfl⟩ := List.mem_map.1 he
+    exact extract_wf r k e.2 (hw.2 e he') q' hq'
+
+theorem extract_sorted (r : Nat) : ∀ (k : Nat) (t : Tree κ ν (r + k)), WF (r + k) t →
+    Sorted (κ := List κ) (extract r k t)
+  | 0, t, _ => List.pairwise_singleton _ _
+  | k + 1, f, h => by
+    unfold extract
+    have hs : Sorted (show List (κ × Tree κ ν (r + k)) from f) := h.1
+    have hw : ∀ e ∈ (show List (κ × Tree κ ν (r + k)) from f), WF (r + k) e.2 := h.2
+    generalize (show List (κ × Tree κ ν (r + k)) from f) = l at hs hw
+    induction l with
+    | nil => exact List.Pairwise.nil
+    | cons e l ih =>
+      rw [List.flatMap_cons]
+      unfold Sorted
+      rw [List.pairwise_append]
+      refine ⟨?_, ih hs.tail (fun x hx => hw x (List.mem_cons_of_mem _ hx)), ?_⟩
+      · rw [List.pairwise_map]
+        exact List.Pairwise.imp (fun hab => List.cons_lt_cons_iff.2 (Or.inr ⟨rfl, hab⟩))
+          (extract_sorted r k e.2 (hw e (List.mem_cons_self ..)))
+      · intro a ha b hb
+        obtain ⟨y, _, rfl⟩ := List.mem_map.1 ha
+        obtain ⟨e', he', hb'⟩ := List.mem_flatMap.1 hb
+        obtain ⟨y', _, rfl⟩ := List.mem_map.1 hb'
+        exact List.cons_lt_cons_iff.2 (Or.inl (hs.head_lt e' he'))
+
+/-! #### `groupHeads` -/
+
+theorem groupHeads_flat {α : Type} : ∀ l : List (List κ × α), (∀ q ∈ l, q.1 ≠ []) →
+    (groupHeads l).flatMap (fun g => g.2.map (fun q => (g.1 :: q.1, q.2))) = l
+  | [], _ => rfl
+  | ([], a) :: rest, h => absurd rfl (h ([], a) (List.mem_cons_self ..))
+  | (c :: p, a) :: rest, h => by
+    have ih := groupHeads_flat rest (fun q hq => h q (List.mem_cons_of_mem _ hq))
+    unfold groupHeads
+    cases hg : groupHeads rest with
+    | nil =>
+      rw [hg] at ih
+      simp at ih
+      simp [ih]
+    | cons g gs =>
+      rw [hg] at ih
+      obtain ⟨c', g⟩ := g
+      simp only []
+      split
+      · rename_i hc
+        subst hc
+        rw [List.flatMap_cons] at ih ⊢
+        simp only [List.map_cons, List.cons_append]
+        rw [ih]
+      · rw [List.flatMap_cons]
+        simp only [List.map_cons, List.map_nil, List.cons_append, List.nil_append]
+        rw [ih]
+
+theorem mem_groupHeads {α : Type} {l : List (List κ × α)} (h : ∀ q ∈ l, q.1 ≠ [])
+    {g : κ × List (List κ × α)} (hg : g ∈ groupHeads l) {q : List κ × α} (hq : q ∈ g.2) :
+    (g.1 :: q.1, q.2) ∈ l := by
+  rw [← groupHeads_flat l h]
+  exact List.mem_flatMap.2 ⟨g, hg, List.mem_map.2 ⟨q, hq, rfl⟩⟩
+
+theorem groupHeads_sorted {α : Type} : ∀ l : List (List κ × α), (∀ q ∈ l, q.1 ≠ []) →
+    Sorted (κ := List κ) l →
+    Sorted (groupHeads l) ∧ (∀ g ∈ groupHeads l, g.2 ≠ [] ∧ Sorted (κ := List κ) g.2)
+  | [], _, _ => ⟨List.Pairwise.nil, fun _ h => by cases h⟩
+  | ([], a) :: rest, h, _ => absurd rfl (h ([], a) (List.mem_cons_self ..))
+  | (c :: p, a) :: rest, h, hs => by
+    have hne := fun q hq => h q (List.mem_cons_of_mem _ hq)
+    have ih := groupHeads_sorted rest hne hs.tail
+    have hmem := fun g hg q hq => mem_groupHeads (l := rest) hne (g := g) hg (q := q) hq
+    unfold groupHeads
+    cases hg : groupHeads rest with
+    | nil =>
+      refine ⟨List.pairwise_singleton _ _, ?_⟩
+      intro g hg'
+      rw [List.mem_singleton.1 hg']
+      exact ⟨by simp, List.pairwise_singleton _ _⟩
+    | cons g gs =>
+      rw [hg] at ih hmem
+      obtain ⟨c', g⟩ := g
+      have hgne : g ≠ [] := (ih.2 (c', g) (List.mem_cons_self ..)).1
+      have hgs : Sorted (κ := List κ) g := (ih.2 (c', g) (List.mem_cons_self ..)).2
+      -- every member of the first group lies in `rest`, hence above `(c :: p, a)`
+      have hlt : ∀ q ∈ g, (c :: p) < (c' :: q.1) := fun q hq =>
+        hs.head_lt (c' :: q.1, q.2) (hmem (c', g) (List.mem_cons_self ..) q hq)
+      simp only []
+      split
+      · rename_i hc
+        subst hc
+        refine ⟨?_, ?_⟩
+        · exact List.Pairwise.cons (fun z hz => ih.1.head_lt z hz) ih.1.tail
+        · intro g' hg'
+          rcases List.mem_cons.1 hg' with rfl | hg'
+          · refine ⟨by simp, List.Pairwise.cons ?_ hgs⟩
+            intro q hq
+            rcases List.cons_lt_cons_iff.1 (hlt q hq) with h1 | ⟨_, h1⟩
+            · exact absurd h1 (irrefl c)
+            · exact h1
+          · exact ih.2 g' (List.mem_cons_of_mem _ hg')
+      · rename_i hc
+        obtain ⟨q0, hq0⟩ := List.exists_mem_of_ne_nil g hgne
+        have hcc : c < c' := by
+          rcases List.cons_lt_cons_iff.1 (hlt q0 hq0) with h1 | ⟨h1, _⟩
+          · exact h1
+          · exact absurd h1 hc
+        refine ⟨?_, ?_⟩
+        · refine List.Pairwise.cons ?_ ih.1
+          intro z hz
+          rcases List.mem_cons.1 hz with rfl | hz
+          · exact hcc
+          · exact trans hcc (ih.1.head_lt z hz)
+        · intro g' hg'
+          rcases List.mem_cons.1 hg' with rfl | hg'
+          · exact ⟨by simp, List.pairwise_singleton _ _⟩
+          · exact ih.2 g' hg'
+
+/-! #### `rebuild` -/
+
+theorem content_rebuild (dflt : ν) (r : Nat) : ∀ (k : Nat) (l : List (List κ × Tree κ ν r)),
+    (∀ q ∈ l, q.1.length = k + 1) →
+    content dflt (r + (k + 1)) (rebuild r k l) = below dflt r l
+  | 0, l, h => by
+    show content dflt (r + 1) (rebuild r 0 l) = _
+    rw [content_succ]
+    unfold rebuild
+    induction l with
+    | nil => rfl
+    | cons q l ih =>
+      have hq := h q (List.mem_cons_self ..)
+      obtain ⟨p, s⟩ := q
+      match p, hq with
+      | [c], _ =>
+        have ih' := ih (fun q hq => h q (List.mem_cons_of_mem _ hq))
+        simp only [List.filterMap_cons]
+        rw [List.flatMap_cons, below_cons]
+        simp only [] at ih' ⊢
+        rw [ih']
+        simp [pre]
+  | k + 1, l, h => by
+    show content dflt (r + (k + 1) + 1) (rebuild r (k + 1) l) = _
+    have hne : ∀ q ∈ l, q.1 ≠ [] := fun q hq hn => by
+      have := h q hq; rw [hn] at this; cases this
+    rw [content_succ]
+    unfold rebuild
+    conv => rhs; rw [← groupHeads_flat l hne]
+    have hg : ∀ g ∈ groupHeads l, ∀ q ∈ g.2, q.1.length = k + 1 := fun g hg q hq => by
+      have := h _ (mem_groupHeads hne hg hq)
+      simpa using this
+    generalize groupHeads l = G at hg
+    induction G with
+    | nil => rfl
+    | cons g G ih =>
+      rw [List.map_cons, List.flatMap_cons, List.flatMap_cons, below_append, below_map_cons,
+        ih (fun g' hg' => hg g' (List.mem_cons_of_mem _ hg'))]
+      show pre g.1 (content dflt (r + (k + 1)) (rebuild r k g.2)) ++ _ = _
+      rw [content_rebuild dflt r k g.2 (hg g (List.mem_cons_self ..))]
+
+theorem mem_heads {α : Type} {l : List (List κ × α)} {e : κ × α}
+    (h : e ∈ l.filterMap (fun q => match q.1 with | c :: _ => some (c, q.2) | [] => none)) :
+    ∃ q ∈ l, (∃ p, q.1 = e.1 :: p) ∧ q.2 = e.2 := by
+  obtain ⟨q, hq, hF⟩ := List.mem_filterMap.1 h
+  refine ⟨q, hq, ?_⟩
+  obtain ⟨p, a⟩ := q
+  cases p with
+  | nil => simp at hF
+  | cons c p =>
+    simp only [Option.some.injEq] at hF
+    subst hF
+    exact ⟨⟨p, rfl⟩, rfl⟩
+
+theorem rebuild_wf (r : Nat) : ∀ (k : Nat) (l : List (List κ × Tree κ ν r)),
+    (∀ q ∈ l, q.1.length = k + 1) → Sorted (κ := List κ) l → (∀ q ∈ l, WF r q.2) →
+    WF (r + (k + 1)) (rebuild r k l)
+  | 0, l, h, hs, hw => by
+    show WF (r + 1) (rebuild r 0 l)
+    unfold rebuild
+    refine ⟨?_, ?_⟩
+    · show Sorted (l.filterMap _)
+      induction l with
+      | nil => exact List.Pairwise.nil
+      | cons q l ih =>
+        have hq := h q (List.mem_cons_self ..)
+        obtain ⟨p, s⟩ := q
+        match p, hq with
+        | [c], _ =>
+          simp only [List.filterMap_cons]
+          refine List.Pairwise.cons ?_ (ih (fun q hq => h q (List.mem_cons_of_mem _ hq)) hs.tail
+            (fun q hq => hw q (List.mem_cons_of_mem _ hq)))
+          intro e he
+          obtain ⟨q, hq, ⟨p', hp'⟩, _⟩ := mem_heads he
+          have := hs.head_lt q hq
+          have hlen := h q (List.mem_cons_of_mem _ hq)
+          rw [hp'] at this hlen
+          have hp0 : p' = [] := by
+            cases p' with
+            | nil => rfl
+            | cons _ _ => simp at hlen
+          subst hp0
+          rcases List.cons_lt_cons_iff.1 this with h1 | ⟨_, h1⟩
+          · exact h1
+          · exact absurd h1 (List.not_lt_nil _)
+    · intro e he
+      obtain ⟨q, hq, _, h2⟩ := mem_heads he
+      rw [← h2]; exact hw q hq
+  | k + 1, l, h, hs, hw => by
+    show WF (r + (k + 1) + 1) (rebuild r (k + 1) l)
+    have hne : ∀ q ∈ l, q.1 ≠ [] := fun q hq hn => by
+      have := h q hq; rw [hn] at this; cases this
+    have hG := groupHeads_sorted l hne hs
+    unfold rebuild
+    refine ⟨?_, ?_⟩
+    · show Sorted ((groupHeads l).map _)
+      unfold Sorted
+      rw [List.pairwise_map]
+      exact hG.1
+    · intro e he
+      obtain ⟨g, hg, rfl⟩ := List.mem_map.1 he
+      apply rebuild_wf r k g.2
+      · intro q hq
+        have := h _ (mem_groupHeads hne hg hq)
+        simpa using this
+      · exact (hG.2 g hg).2
+      · intro q hq
+        exact hw (g.1 :: q.1, q.2) (mem_groupHeads hne hg hq)
+
+end swz
+
 end C09
 end Ft
